@@ -77,3 +77,16 @@ GROUPS['f3light'] = Group('f3light', filt(False), defines=['VF_UF_ADDSUB', 'VF_L
 for n, d in (('f3_inv', 'inv(Element&,Element&)'), ('f3_inv_ra', 'inv [result==a]'), ('f3_inv_ptr', 'inv(Element*,Element*)')):
     UNITS.append(Unit(n, 'f3light', n, harness='hl_' + n, light=True, functions=['Goldilocks3::%s (%s)' % (d, H)], timeout=600,
                       note='light mode: the function makes ~45 operator calls, >512 addressed objects under dfcc'))
+
+LEMMAS = ['cubic_mul', 'cubic_inv']
+def extra_checks(rn, tier, ginfos):
+    from vf import lean
+    import os, json
+    r = lean.check_lemmas(LEMMAS)
+    if r.get('lean_failed'):
+        path = os.path.join(os.environ.get('VF_REPLAY_DIR', os.path.join(os.path.dirname(os.path.dirname(os.path.dirname(os.path.abspath(__file__)))), 'replay', 'out')), PROPERTY)
+        os.makedirs(path, exist_ok=True)
+        f = os.path.join(path, 'lean-lemmas.json')
+        json.dump(dict(property=PROPERTY, obligation='Lean lemmas ' + ', '.join(LEMMAS), verifier_output=r.get('lean_output', '')), open(f, 'w'), indent=1)
+        r['violations'] = ['VIOLATION property=%s replay=%s [Lean lemma no longer accepted] no-failing-input-found' % (PROPERTY, f)]
+    return r
